@@ -394,7 +394,17 @@ impl RuntimeData {
             debug_assert!(!matches!(obj.marker, GcMarker::Black));
             match &mut obj.body {
                 CaoLangObjectBody::Table(obj) => {
-                    for (key, value) in obj.iter() {
+                    // walk the key list and the hash part themselves: `iter` pairs them up by
+                    // looking every key up again, which skips the rows whose key no longer hashes
+                    // or compares as it did when it was inserted (a table mutated after it was
+                    // used as a key, NaN) - those rows are still handed out by the table
+                    for key in obj.keys() {
+                        unsafe {
+                            checked_enqueue_value!(key);
+                        }
+                    }
+                    let map: &crate::collections::hash_map::CaoHashMap<_, _, _> = obj;
+                    for (key, value) in map.iter() {
                         unsafe {
                             checked_enqueue_value!(key);
                             checked_enqueue_value!(value);
